@@ -524,6 +524,17 @@ def handleSt (d : Drv) (line : String) : Drv × String :=
     match t.toNat? with
     | some t => ({ d with now := t }, "ok")
     | none => (d, "bad-op")
+  | "ptrcons" :: x0 :: y0 :: m0 :: evs =>
+    -- VncSpec/PtrOrder.lean's checker `consistentFrom` on the pointer events observed on the implementation ("x,y,mask")
+    let parse (t : String) : Option (Nat × Nat × Nat) :=
+      match t.splitOn "," with
+      | [a, b, c] => match a.toNat?, b.toNat?, c.toNat? with
+        | some a, some b, some c => some (a, b, c)
+        | _, _, _ => none
+      | _ => none
+    match x0.toNat?, y0.toNat?, m0.toNat?, evs.mapM parse with
+    | some x0, some y0, some m0, some l => (d, if consistentFrom (x0, y0, m0) l then "ok true" else "ok false")
+    | _, _, _, _ => (d, "bad-op")
   | "ordered" :: toks =>
     -- VncProofs/C08Sys.lean's checker `scriptOrdered` (re-stated in VncSpec/Order.lean) on a history observed on the implementation
     let acts : Option (List Act) := toks.mapM fun t =>
